@@ -49,6 +49,24 @@ def s1(ctx, rep):
             detail += f" under assert {v} >= 0"
         elif isinstance(n, ast.Assign) and isinstance(n.value, ast.Call) and fn_name(n.value) == "max":
             ok = any(U(a) == f"self.{attr}" for a in n.value.args)
+        elif isinstance(n, ast.Assign) and isinstance(n.value, ast.BinOp) and isinstance(n.value.op, ast.Add) and \
+                f"self.{attr}" in (U(n.value.left), U(n.value.right)):
+            # self.t = self.t + step   (the spelled-out form of the augmented assignment)
+            cfg = cfg_of(f)
+            nid = [x.id for x in cfg.nodes if x.ast is n][0]
+            v = U(n.value.right if U(n.value.left) == f"self.{attr}" else n.value.left)
+            ok = ctx.has_fact(f, nid, lambda a: a[0] == "le" and a[1] == "0" and a[2] == v)
+            detail += f" under assert {v} >= 0"
+        elif isinstance(n, ast.Assign):
+            # self.t = v  where the clock is known not to be ahead of v:  self.t <= v  dominates the write (the clock itself or a
+            # local just loaded from it)
+            from .common import dom_guard, value_pred
+            cfg = cfg_of(f)
+            nid = [x.id for x in cfg.nodes if x.ast is n][0]
+            is_clock = value_pred(f, lambda e: U(e) == f"self.{attr}")
+            v = U(n.value)
+            ok = any(a[0] == "le" and a[2] == v and is_clock(a[1]) for a in dom_guard(ctx, f, nid))
+            detail += f" under clock <= {v}"
         rep.put(ok, "S1", "monotone_write", construct, f, n, detail,
                 f"`{U(n)}` can move the simulated clock backwards (not `= 0` at start, `+= step` under `assert step >= 0`, or "
                 f"`= max(·, self.{attr})`)")
@@ -62,9 +80,11 @@ def s2(ctx, rep):
     pushes = [(n.id, x) for n in cfg.nodes for x in cfg.node_walk(n.id) if isinstance(x, ast.Call) and fn_name(x) == "heappush"]
     ok = len(pushes) == 1
     if ok:
-        item = argn(pushes[0][1], 1)
-        ok = isinstance(item, ast.Tuple) and len(item.elts) == 3 and U(item.elts[0]) == "event_time" and U(item.elts[1]) == "self.events_added" \
-            and U(item.elts[2]) == "event" and U(argn(pushes[0][1], 0)) == "self.event_heap"
+        from ..engine import deref, record_elts
+        # a tuple, or a NamedTuple of the program (which compares like the tuple of its fields), written in place or held in a local
+        elts = record_elts(deref(f, argn(pushes[0][1], 1)))
+        ok = elts is not None and len(elts) == 3 and U(elts[0]) == "event_time" and U(elts[1]) == "self.events_added" \
+            and U(elts[2]) == "event" and U(argn(pushes[0][1], 0)) == "self.event_heap"
     rep.put(ok, "S2", "agreement", "SimulatorState.push: heap entries are (time, insertion counter, event)", f, pushes[0][1] if pushes else None, "",
             "heap entries are not keyed by (time, insertion counter): events with equal time stamps are not processed first-in-first-out")
     inc = [n.id for n in cfg.nodes if n.kind == "stmt" and isinstance(n.ast, ast.AugAssign) and U(n.ast.target) == "self.events_added"
@@ -100,10 +120,33 @@ def s2(ctx, rep):
                     f"`{U(nd.ast)[:70]}` stores a list that is not heapified (heapify is applied to another object, or not on every path): "
                     "heappop then returns events out of time order - a trial's results arrive out of order and with time stamps in the past")
     nx = c.methods["next_until"]
-    tops = [U(x.targets[0].elts[0]) for x in walk_shallow(nx.node) if isinstance(x, ast.Assign) and isinstance(x.targets[0], ast.Tuple)
-            and U(x.value) == "self.event_heap[0]"]
-    ok = len(tops) == 1 and any(isinstance(x, ast.Call) and fn_name(x) == "heappop" for x in walk_shallow(nx.node)) and \
-        any(("le", tops[0], "time_until") in atoms_of(n.test, True) for n in walk_shallow(nx.node) if isinstance(n, ast.If))
+    from ..engine import deref, _RECORDS
+    from .common import dom_guard, call_nodes
+
+    def _is_top(e):
+        """the heap's first entry, possibly wrapped as a record: self.event_heap[0] / Entry(*self.event_heap[0])"""
+        e = deref(nx, e)
+        if isinstance(e, ast.Call) and len(e.args) == 1 and isinstance(e.args[0], ast.Starred) and not e.keywords and fn_name(e) in _RECORDS:
+            e = e.args[0].value
+        return U(e) == "self.event_heap[0]"
+
+    def _top_time(text):
+        try:
+            e = ast.parse(text, mode="eval").body
+        except SyntaxError:
+            return False
+        if isinstance(e, ast.Name):
+            ds = local_defs(nx, e.id)
+            return len(ds) == 1 and isinstance(ds[0], tuple) and ds[0][0] == "unpack" and ds[0][2] == 0 and _is_top(ds[0][1])
+        if isinstance(e, ast.Subscript) and U(e.slice) == "0":
+            return _is_top(e.value)
+        if isinstance(e, ast.Attribute):
+            b_ = deref(nx, e.value)
+            rec = _RECORDS.get(fn_name(b_)) if isinstance(b_, ast.Call) else None
+            return rec is not None and rec[1] and rec[0][:1] == (e.attr,) and _is_top(e.value)
+        return False
+    pops = [n_ for n_, c_ in call_nodes(ctx, nx, lambda c_: fn_name(c_) == "heappop")]
+    ok = bool(pops) and all(any(a[0] == "le" and a[2] == "time_until" and _top_time(a[1]) for a in dom_guard(ctx, nx, n_)) for n_ in pops)
     rep.put(ok, "S2", "guarded_by", "SimulatorState.next_until pops the heap top only if its time is due", nx, None, "")
 
 
